@@ -104,6 +104,11 @@ structure Event (R : Type) where
   daughter : Nat → Bool → R × R × R      -- (volume at birth, growth-rate draw, division-volume draw) of daughter 1/2
   vol      : Nat → R                     -- compute_volume() of the cell with this id in this iteration
 
+/-- a daughter as `cell_divider::divide_cell` returns it: built by `initialize_cell_properties` from its own mesh
+    (volume `V`), target volume taken from the mother, growth rate and division volume drawn -/
+def daughterOf (id : Nat) (m : Cell R) (V xg xd : R) : Cell R :=
+  { newborn id m.ty V xg xd with tv := Gen.CellCycle.daughterTargetVolume m.tv }
+
 /-- the daughters of the mothers `ms` (in this order), ids issued from `next` on; returns them with the new counter -/
 def mkDaughters (e : Event R) : List (Cell R) → Nat → List (Cell R) × Nat
   | [], next => ([], next)
@@ -111,7 +116,7 @@ def mkDaughters (e : Event R) : List (Cell R) → Nat → List (Cell R) × Nat
     let d1 := e.daughter m.id false
     let d2 := e.daughter m.id true
     let r := mkDaughters e rest (next + 2)
-    (newborn next m.ty d1.1 d1.2.1 d1.2.2 :: newborn (next + 1) m.ty d2.1 d2.2.1 d2.2.2 :: r.1, r.2)
+    (daughterOf next m d1.1 d1.2.1 d1.2.2 :: daughterOf (next + 1) m d2.1 d2.2.1 d2.2.2 :: r.1, r.2)
 
 /-- `cell_divider::run`: every ready cell whose division succeeds is replaced by two daughters with the
     next two ids, appended at the end in the order of the mothers -/
@@ -119,9 +124,14 @@ def divisionRound (p : Pop R) (e : Event R) : Pop R :=
   let ds := mkDaughters e (p.cells.filter (fun c => ready c && e.divides c.id)) p.nextId
   { cells := p.cells.filter (fun c => !(ready c && e.divides c.id)) ++ ds.1, nextId := ds.2 }
 
+/-- the division phase of iteration number `it`: `cell_divider::run` is called outside temporary steps every
+    `divisionPeriod` iterations -/
+def divPhase (it : Nat) (p : Pop R) (e : Event R) : Pop R :=
+  if !e.tmpStep && it % Gen.CellCycle.divisionPeriod == 0 then divisionRound p e else p
+
 /-- the population after the division and the internal-force phases of iteration number `it` -/
 def midPop (fn : Fn R) (dt : R) (it : Nat) (p : Pop R) (e : Event R) : Pop R :=
-  let p1 := if !e.tmpStep && it % Gen.CellCycle.divisionPeriod == 0 then divisionRound p e else p
+  let p1 := divPhase it p e
   { p1 with cells := p1.cells.map (fun c => grow fn dt (e.vol c.id) c) }
 
 /-- one `solver::run_iteration` -/
